@@ -113,7 +113,12 @@ C07_Recompose(o) ==
   \E gray \in BOOLEAN :
     LET b == AppendixBWith(V(o.str), gray) IN
       /\ LowerS(b.scheme) = Scheme5(o)
-      /\ (b.authority = Netloc5(o) \/ b.authority = DropDefaultPort(Scheme5(o), Netloc5(o)))
+      /\ \/ SplitAuthority(Netloc5(o)).oddBrackets     \* malformed-but-accepted brackets: unspecified (reading f)
+         \/ b.authority = Netloc5(o)
+         \/ b.authority = DropDefaultPort(Scheme5(o), Netloc5(o))
+         \* re-assembling the authority without its default port may also drop an EMPTY userinfo ("@h:80" -> "h")
+         \/ LET d == DropDefaultPort(Scheme5(o), Netloc5(o)) IN
+              d # Netloc5(o) /\ d # <<>> /\ d[1] = AT /\ b.authority = Tail(d)
       /\ \/ b.path = Path5(o)
          \/ (Netloc5(o) # <<>> /\ {b.path, Path5(o)} = {<<>>, <<SLASH>>})
       /\ b.query = Query5(o)
